@@ -1637,4 +1637,94 @@ theorem tie_lex_radix :
 theorem tie_lex_parsers : MJ.Gen.lexIntParsers = [("u64", "radix"), ("u128", "radix")] ∧
     MJ.Gen.lexPlainParsers = ["Float"] := by decide
 
+/-! ### Session 4: negative zero, and the final form of the property
+
+`-0.0` and `0.0` (and the integer 0 of every width) are the same number: no ordering operator may
+separate them, `==` holds.  `cmp_f64` gets this from its `left == right` guard in front of the
+total order of the bit patterns (`totalCmp negZero 0 = .lt`: without the guard `-0.0 < 0`). -/
+section Session4
+open MJ.Num MJ.F64 MJ.Val MJ.Cmp MJ.NumF MJ.CmpKey MJ.CmpNum MJ.NumX
+
+/-- the bit pattern of `-0.0` -/
+def negZero : Nat := 0x8000000000000000
+
+theorem negZero_ok : NumOK (.f64 negZero) ∧ numKey (.f64 negZero) = 0 ∧ NumOK (.f64 0) ∧ numKey (.f64 0) = 0 := by
+  refine ⟨⟨?_, ?_⟩, ?_, ⟨?_, ?_⟩, ?_⟩
+  · simp only [N.WF, P64, negZero]; decide
+  · show isNaN negZero = false; decide
+  · show key negZero = 0; decide
+  · simp only [N.WF, P64]; decide
+  · show isNaN 0 = false; decide
+  · show key 0 = 0; decide
+
+theorem cmp_zero_signs_equal (op : CmpOp) (z : N) (hz : NumOK z) (h0 : numKey z = 0) :
+    cmpOp op (.f64 negZero) z = exactCmp op 0 0 ∧ cmpOp op z (.f64 negZero) = exactCmp op 0 0 := by
+  obtain ⟨hn, hk, _, _⟩ := negZero_ok
+  have h1 := cmp_ops_exact op (.f64 negZero) z hn hz
+  have h2 := cmp_ops_exact op z (.f64 negZero) hz hn
+  rw [hk, h0] at h1 h2
+  exact ⟨h1, h2⟩
+
+theorem cmp_f64_zero_signs_equal : cmpF64 negZero 0 = .eq ∧ cmpF64 0 negZero = .eq ∧
+    totalCmp negZero 0 = .lt := by decide
+
+theorem zero_signs_table (z : N) (hz : NumOK z) (h0 : numKey z = 0) :
+    cmpOp .lt (.f64 negZero) z = false ∧ cmpOp .gt (.f64 negZero) z = false ∧
+    cmpOp .le (.f64 negZero) z = true ∧ cmpOp .ge (.f64 negZero) z = true ∧
+    cmpOp .eq (.f64 negZero) z = true ∧ cmpOp .ne (.f64 negZero) z = false ∧
+    cmpOp .lt z (.f64 negZero) = false ∧ cmpOp .gt z (.f64 negZero) = false ∧
+    cmpOp .le z (.f64 negZero) = true ∧ cmpOp .ge z (.f64 negZero) = true ∧
+    cmpOp .eq z (.f64 negZero) = true ∧ cmpOp .ne z (.f64 negZero) = false := by
+  refine ⟨?_, ?_, ?_, ?_, ?_, ?_, ?_, ?_, ?_, ?_, ?_, ?_⟩ <;>
+    first
+      | exact (cmp_zero_signs_equal _ z hz h0).1
+      | exact (cmp_zero_signs_equal _ z hz h0).2
+
+example : NumOK (.i64 0) ∧ numKey (.i64 0) = 0 ∧ NumOK (.u128 0) ∧ numKey (.u128 0) = 0 := by
+  refine ⟨⟨?_, trivial⟩, ?_, ⟨?_, trivial⟩, ?_⟩
+  · simp only [N.WF, i64Min, i64Max]; decide
+  · show (0 : Int) * (scale : Int) = 0; exact Int.zero_mul _
+  · simp only [N.WF, u128Max]; decide
+  · show ((0 : Nat) : Int) * (scale : Int) = 0; simp
+
+/-- the second sentence of the property on the model: comparison of integers and floats is exact
+    (all five representations, infinities included), and `//` and `%` of floats are, before the one
+    final rounding each, the Euclidean quotient and remainder of the exact operands -/
+def C08_full_num : Prop :=
+  (∀ (op : CmpOp) (x y : N), NumOK x → NumOK y → cmpOp op x y = exactCmp op (numKey x) (numKey y)) ∧
+  (∀ a b : Int, b ≠ 0 → fDivEuclid a b * b + fRemEuclid a b = a ∧ 0 ≤ fRemEuclid a b ∧
+      fRemEuclid a b < b.natAbs)
+
+/-- the one thing between the model of the current code and `C08_full`: unary minus at the operand
+    `2^127`.  NAMED HYPOTHESIS of `C08_main`; it is FALSE on the current code
+    (`C08_main_gap_is_open`), which is the recorded known finding. -/
+def NegOf2p127Exact : Prop :=
+  ∀ (a r : NumRepr), a.WF → a.val = 170141183460469231731687303715884105728 → neg a = .ok r →
+    r.WF ∧ r.val = -a.val
+
+/-- **C08, final form.**  The full statement of the integer part (`C08_full`) and of the
+    comparison / Euclid part (`C08_full_num`) follow from the theorems above and ONE named
+    hypothesis, `NegOf2p127Exact`. -/
+theorem C08_main (neg_of_2p127 : NegOf2p127Exact) : C08_full ∧ C08_full_num := by
+  obtain ⟨h1, h2, h3, h4, h5, h6, h7⟩ := C08_holds_partial
+  refine ⟨⟨h1, ?_, h3, h4, h5, h6, h7⟩, ?_, ?_⟩
+  · intro a r ha hn
+    by_cases hv : a.val = 170141183460469231731687303715884105728
+    · exact neg_of_2p127 a r ha hv hn
+    · exact h2 a r ha hv hn
+  · exact cmp_ops_exact
+  · intro a b hb
+    obtain ⟨_, hlaw⟩ := float_div_euclid_exact a b hb
+    obtain ⟨_, hlo, hhi⟩ := float_rem_euclid_exact a b hb
+    exact ⟨hlaw, hlo, hhi⟩
+
+/-- the hypothesis of `C08_main` is exactly the open gap: it fails on the current code, and it is
+    equivalent to the full statement given what is proved -/
+theorem C08_main_gap_is_open : ¬ NegOf2p127Exact ∧ (NegOf2p127Exact ↔ C08_full) := by
+  have hiff : NegOf2p127Exact ↔ C08_full :=
+    ⟨fun h => (C08_main h).1, fun h a r ha _ hn => h.2.1 a r ha hn⟩
+  exact ⟨fun h => C08_counterexample (hiff.1 h), hiff⟩
+
+end Session4
+
 end MJ.C08
